@@ -703,6 +703,10 @@ func summarizeResults(rs []*result.CertRevocationResult, err error) string {
 		}
 		s += fmt.Sprintf("|%d/%d", r.Result, r.RevocationMethod)
 		for _, sr := range r.ServerResults {
+			if sr == nil {
+				s += ",nil"
+				continue
+			}
 			s += fmt.Sprintf(",%d@%s", sr.Result, sr.Server)
 		}
 	}
